@@ -8,3 +8,4 @@ import CC.Thm.C15
 #print axioms CC.Thm.C15.stream64_eq_iff
 #print axioms CC.Thm.C15.stream32_eq_iff
 #print axioms CC.Thm.C15.stream64_eq_refill
+#print axioms CC.Thm.C15.source_code_match
